@@ -8,6 +8,9 @@ and exactly on a bin edge, pairs across the periodic boundary) x block lengths x
 on small generated systems (8-9 CG beads, two bead types, a 4-bead chain molecule with
 bonds, angles, optionally a dihedral; one system goes through a --cg mapping file).
 
+Plus three families (see notes/C04.md): T4 large boxes with 4-7 search cells and unwrapped coordinates, T5 empty per-frame
+histograms in IMC groups, G/H all 64 shapes {1,2,3,>=4}^3 of the neighbour-search grid in orthorhombic and triclinic boxes.
+
 Oracles
  1. reference model: a boring Python recomputation of the documented formulas from the same
     input files (the .gro trajectory text is re-parsed): nearest-bin-centre counting over an
@@ -218,7 +221,80 @@ FRAMES5 = {
 EMPTY5 = {"P": (), "Q": ("BB", "AB"), "R": ("bond", "AAA"), "Z": ("BB", "AB", "bond", "AAA")}
 
 
+# --- grid-SHAPE family: systems G<nx><ny><nz> (orthorhombic) and H<nx><ny><nz> (triclinic), n in {1,2,3,4}: the
+# neighbour-search grid of every rdf of set S9 (cut-offs max+step = 0.9 / 1.0 / 0.85, three-body cut 0.85) has exactly
+# nx x ny x nz cells in frame A and cells of the same class {1,2,3,>=4} (4 -> 5) in frame B.  The box height along an axis
+# is taken from LEN6[letter][n]: floor(h/cut) = n for all three cut-offs, and max <= h/2 (the rule csg_stat enforces) even
+# for the single-cell length (2*max = 1.6 <= h < 2*(max+step) = 1.7).  16 beads (chain A-B-A-B + 6 free A + 6 free B) on one design that is
+# placed relative to the box: a cluster straddling the three box faces through the origin (negative coordinates, whole-box
+# shifts) + two A and two B around the point P = the cell-boundary planes nearest the box centre.
+LEN6 = {"A": {1: 1.650, 2: 2.300, 3: 3.200, 4: 4.100}, "B": {1: 1.680, 2: 2.400, 3: 3.100, 4: 5.050}}
+TILT6 = {"A": (0.300, -0.250, 0.350), "B": (-0.200, 0.300, 0.250)}     # (b_x, c_x, c_y) of the triclinic boxes
+SHAPE_FAMILY = {}        # system name -> (kind 'G'|'H', (nx, ny, nz))
+for _kind in "GH":
+    for _s in itertools.product((1, 2, 3, 4), repeat=3):
+        _n = "%s%d%d%d" % ((_kind,) + _s)
+        SHAPE_FAMILY[_n] = (_kind, _s)
+        SYSTEMS[_n] = System(_n, nchains=1, nfa=6, nfb=6, dihedral=False)
+# offsets from the origin corner resp. (beads of CENTRED6) from the point P on the cell boundaries nearest the box centre
+BASE6 = [(0.113, 0.157, 0.209), (0.413, 0.157, 0.209), (0.413, 0.427, 0.259), (0.663, 0.447, 0.459),   # chain A B A B
+         (-0.247, 0.203, 0.121),    # 4  A  beyond the face x=0
+         (0.171, -0.313, 0.247),    # 5  A  beyond the face y=0
+         (0.223, 0.109, -0.351),    # 6  A  beyond the face z=0     (beads 0,4,5,6: A-A-A triples centred on bead 0)
+         (-0.190, -0.170, -0.210),  # 7  A  P - ..   | pairs straddling an internal cell boundary on every axis with >= 2
+         (0.160, 0.220, 0.180),     # 8  A  P + ..   | cells (the same cell on an axis with one cell)
+         (0.557, 0.193, 0.613),     # 9  A  in the cell of the chain (same-cell A-A pairs with beads 0 and 2)
+         (-0.183, -0.141, 0.317),   # 10 B  beyond x=0 and y=0 (edge neighbour)
+         (0.307, 0.211, -0.293),    # 11 B  beyond z=0
+         (-0.157, 0.493, 0.287),    # 12 B  beyond x=0
+         (-0.080, -0.280, -0.120),  # 13 B  P - ..   | B-B (and, with beads 7/8, A-B) pairs straddling the internal
+         (0.190, 0.130, 0.210),     # 14 B  P + ..   | cell boundaries
+         (0.287, 0.531, 0.571)]     # 15 B  in the cell of the chain (same-cell B-B pairs with beads 1 and 3)
+CENTRED6 = (7, 8, 13, 14)
+NCELL6 = {"A": {1: 1, 2: 2, 3: 3, 4: 4}, "B": {1: 1, 2: 2, 3: 3, 4: 5}}     # cells of the rdf grids for LEN6
+D6B = D4B[:9] + [(0.010, -0.010, 0.020)] + D4B[9:] + [(-0.020, 0.010, -0.010), (0.020, -0.020, 0.010), (0.010, 0.020, -0.020)]
+# whole-box shifts (unwrapped trajectory): multiples of the box vectors a, b, c added to single beads
+K6 = {"A": [(0, 0, 0)] * 4 + [(0, 0, 0), (0, 0, 0), (0, 0, 0), (0, 0, 0), (0, 0, 0), (0, 0, 0),
+                              (0, 0, 0), (0, 0, 2), (-1, 0, 0), (0, 0, 0), (0, 0, 0), (0, 0, 0)],
+      "B": [(0, 0, 0)] * 4 + [(1, 0, 0), (0, -2, 0), (0, 0, 0), (0, 0, 1), (0, 0, 0), (0, 0, 0),
+                              (0, 1, 0), (0, 0, 0), (1, 0, -1), (0, 0, 0), (-1, 2, 0), (0, 0, 0)]}
+
+
+def box6(sysname, letter):
+    """box line of the .gro frame: 3 numbers (orthorhombic) or the 9 numbers v1x v2y v3z v1y v1z v2x v2z v3x v3y with
+    v1y = v1z = v2z = 0; the triclinic box is built so that its three HEIGHTS (distances between opposite faces, what
+    the search grid and csg_stat's half-box rule use) are the design lengths"""
+    kind, shape = SHAPE_FAMILY[sysname]
+    h = [LEN6[letter][n] for n in shape]
+    if kind == "G":
+        return tuple(h)
+    bx, cx, cy = TILT6[letter]
+    cz = h[2]
+    by = round(h[1] * math.sqrt(1.0 + (cy / cz) ** 2), 5)
+    bxc = cross((bx, by, 0.0), (cx, cy, cz))
+    ax = round(h[0] * norm(bxc) / (by * cz), 5)
+    return (ax, by, cz, 0.0, 0.0, bx, 0.0, cx, cy)
+
+
+def cg_frame6(sysname, letter):
+    cols = box_cols(box6(sysname, letter))
+    frac = []
+    for n in SHAPE_FAMILY[sysname][1]:
+        N = NCELL6[letter][n]
+        frac.append(float(N // 2) / N if N >= 2 else 0.5)
+    centre = tuple(sum(frac[j] * cols[j][k] for j in range(3)) for k in range(3))
+    out = []
+    for i, p in enumerate(BASE6):
+        o = centre if i in CENTRED6 else (0.0, 0.0, 0.0)
+        d = D6B[i] if letter == "B" else (0.0, 0.0, 0.0)
+        K = K6[letter][i]
+        out.append(tuple(round(o[k] + p[k] + d[k] + sum(K[j] * cols[j][k] for j in range(3)), 3) for k in range(3)))
+    return out
+
+
 def box_of(sysname, letter):
+    if sysname in SHAPE_FAMILY:
+        return box6(sysname, letter)
     if sysname in EMPTY_FAMILY:
         return BOX5[letter]
     return BOX4[letter] if sysname in GRID_FAMILY else BOX[letter]
@@ -241,6 +317,8 @@ DATOM = [(0.010, 0.020, -0.010), (-0.020, 0.010, 0.015), (0.015, -0.015, 0.020),
 
 
 def cg_frame(sysname, letter):
+    if sysname in SHAPE_FAMILY:
+        return cg_frame6(sysname, letter)
     if sysname in GRID_FAMILY:
         return cg_frame4(letter)
     if sysname in EMPTY_FAMILY:
@@ -280,7 +358,7 @@ def gro_frame(sysname, letter):
                 n += 1
                 lines.append("%5d%-5s%5s%5d%8.3f%8.3f%8.3f" % (molid + 1, molname, nm, n, q[0], q[1], q[2]))
     bx = box_of(sysname, letter)
-    return "frame %s t= 0.0\n%5d\n%s\n%10.5f%10.5f%10.5f\n" % (letter, len(lines), "\n".join(lines), bx[0], bx[1], bx[2])
+    return "frame %s t= 0.0\n%5d\n%s\n%s\n" % (letter, len(lines), "\n".join(lines), "".join("%10.5f" % v for v in bx))
 
 
 def parse_gro(text, sy):
@@ -318,6 +396,7 @@ INTER = {
     "dih": ("bonded", "-3.2", "3.2", "0.4"),
     "AAA": ("three", "A", "A", "A", "0", "3.2", "0.2", "0.6"),
     "ABB": ("three", "A", "B", "B", "0", "3.2", "0.4", "0.7"),
+    "AAW": ("three", "A", "A", "A", "0", "3.2", "0.2", "0.85"),   # wide cut: its search grid has the shape of the rdf grids of the shape family
 }
 # interaction sets: list of (name, imc group)   ("none" = not part of any imc group)
 SETS = {
@@ -329,6 +408,7 @@ SETS = {
     "S6": [("AA", "g"), ("AB", "g"), ("BB", "h"), ("AAA", "none"), ("bond", "h")],
     "S7": [("BB", "g"), ("bond", "g")],        # same-type rdf + bonded in one group
     "S8": [("AB", "g"), ("AAA", "g")],         # cross-type rdf + three-body in one group (dS of AAA not compared)
+    "S9": [("AA", "g"), ("AB", "g"), ("BB", "h"), ("AAA", "none"), ("AAW", "none"), ("bond", "h")],   # grid-shape family
 }
 SETS_OF = {"T1": ["S1", "S2", "S3", "S4"], "T2": ["S1", "S3", "S5", "S4"], "T3": ["S3", "S2"], "T4": ["S6", "S1"], "T5": ["S7", "S8"]}
 
@@ -388,8 +468,103 @@ def minimg(d, L):
     return d - L * round(d / L)
 
 
+def box_cols(box):
+    """box vectors a, b, c from the numbers of the .gro box line (3: orthorhombic, 9: v1x v2y v3z v1y v1z v2x v2z v3x v3y)"""
+    if len(box) == 3:
+        return ((box[0], 0.0, 0.0), (0.0, box[1], 0.0), (0.0, 0.0, box[2]))
+    return ((box[0], box[3], box[4]), (box[5], box[1], box[6]), (box[7], box[8], box[2]))
+
+
+def box_volume(box):
+    a, b, c = box_cols(box)
+    return abs(dot(a, cross(b, c)))
+
+
+def box_heights(box):
+    """distances between opposite faces"""
+    a, b, c = box_cols(box)
+    V = box_volume(box)
+    return (V / norm(cross(b, c)), V / norm(cross(c, a)), V / norm(cross(a, b)))
+
+
+def box_frac(r, box):
+    """fractional coordinates of r along a, b, c"""
+    a, b, c = box_cols(box)
+    V = dot(a, cross(b, c))
+    return (dot(r, cross(b, c)) / V, dot(r, cross(c, a)) / V, dot(r, cross(a, b)) / V)
+
+
+_LATTICE, _CONN = {}, {}
+
+
+def conn_general(a, b, box):
+    """minimum image of b - a in a general (triclinic) box, brute force: the difference is reduced to fractional
+    coordinates in [-0.5, 0.5] and ALL lattice vectors n_a a + n_b b + n_c c with |n| <= 2 are tried.
+    returns (vector, image shift (n_a, n_b, n_c) relative to the unreduced difference, length gap to the second best)"""
+    key = (a, b, box)
+    if key not in _CONN:
+        if box not in _LATTICE:
+            cols = box_cols(box)
+            _LATTICE[box] = [((i, j, k), tuple(i * cols[0][x] + j * cols[1][x] + k * cols[2][x] for x in range(3)))
+                             for i in range(-2, 3) for j in range(-2, 3) for k in range(-2, 3)]
+        cols = box_cols(box)
+        d = tuple(b[k] - a[k] for k in range(3))
+        s = box_frac(d, box)
+        n0 = tuple(-int(round(x)) for x in s)
+        d0 = tuple(d[x] + sum(n0[j] * cols[j][x] for j in range(3)) for x in range(3))
+        best = second = None
+        for n, T in _LATTICE[box]:
+            v = (d0[0] + T[0], d0[1] + T[1], d0[2] + T[2])
+            l2 = v[0] * v[0] + v[1] * v[1] + v[2] * v[2]
+            if best is None or l2 < best[0]:
+                best, second = (l2, v, n), best
+            elif second is None or l2 < second[0]:
+                second = (l2, v, n)
+        _CONN[key] = (best[1], tuple(n0[k] + best[2][k] for k in range(3)), math.sqrt(second[0]) - math.sqrt(best[0]))
+    return _CONN[key]
+
+
+def cround(x):
+    """C++ std::round: halves away from zero"""
+    return math.floor(abs(x) + 0.5) * (1.0 if x >= 0 else -1.0)
+
+
+def conn_sequential(a, b, box):
+    """NOT the reference: the connection vector obtained by removing multiples of c, then b, then a by rounding the z, y, x
+    component one after the other (what TriclinicBox::BCShortestConnection does).  It is the minimum image only while the
+    true distance is below half the smallest of a_x, b_y, c_z; used solely to recognise the known finding
+    'triclinic-connection-not-minimum-image' (output == model with THIS connection)."""
+    cols = box_cols(box)
+    r = [b[k] - a[k] for k in range(3)]
+    for j in (2, 1, 0):
+        n = cround(r[j] / cols[j][j])
+        r = [r[k] - n * cols[j][k] for k in range(3)]
+    return tuple(r)
+
+
+SEQUENTIAL_IMAGE = [False]      # switched on only while the alternative model of the known finding is built
+
+
 def conn(a, b, box):
-    return tuple(minimg(b[k] - a[k], box[k]) for k in range(3))
+    if len(box) == 3:
+        return tuple(minimg(b[k] - a[k], box[k]) for k in range(3))
+    if SEQUENTIAL_IMAGE[0]:
+        return conn_sequential(a, b, box)
+    return conn_general(a, b, box)[0]
+
+
+def sequential_image_pairs(sy, frame, reach):
+    """bead pairs of a triclinic frame whose sequentially reduced connection is longer than the minimum image although the
+    minimum-image distance is below `reach`: [(a, b, true distance, sequential distance)]"""
+    box, pos = frame
+    out = []
+    if len(box) == 9:
+        for a in range(len(pos)):
+            for b in range(a + 1, len(pos)):
+                t, q = norm(conn_general(pos[a], pos[b], box)[0]), norm(conn_sequential(pos[a], pos[b], box))
+                if q - t > 1e-9 and t < reach:
+                    out.append((a, b, t, q))
+    return out
 
 
 def norm(v):
@@ -477,17 +652,22 @@ def bin_values(vals, mn, st, n):
 class Model:
     """expected files of one csg_stat run"""
 
-    def __init__(self, sysname, sname, intra, imc, frames_by_letter):
+    def __init__(self, sysname, sname, intra, imc, frames_by_letter, sequential_image=False):
+        """sequential_image=True: alternative model of the known finding (see conn_sequential), never the reference"""
         self.sy, self.sname, self.intra, self.imc = SYSTEMS[sysname], sname, intra, imc
         self.order = set_order(sname)
         self.grids = {n: grid(n, intra) for n in self.order}
         self.raw = {}       # (letter, name) -> (counts, ties)
         self.vol = {}
-        for L, fr in frames_by_letter.items():
-            self.vol[L] = fr[0][0] * fr[0][1] * fr[0][2]
-            for n in self.order:
-                mn, st, nb = self.grids[n]
-                self.raw[(L, n)] = bin_values(values_of(self.sy, n, fr, intra), mn, st, nb)
+        SEQUENTIAL_IMAGE[0] = sequential_image
+        try:
+            for L, fr in frames_by_letter.items():
+                self.vol[L] = fr[0][0] * fr[0][1] * fr[0][2] if len(fr[0]) == 3 else box_volume(fr[0])
+                for n in self.order:
+                    mn, st, nb = self.grids[n]
+                    self.raw[(L, n)] = bin_values(values_of(self.sy, n, fr, intra), mn, st, nb)
+        finally:
+            SEQUENTIAL_IMAGE[0] = False
         self.tie_items = [(L, n, k) for (L, n), (c, t) in sorted(self.raw.items()) for k in range(len(t))]
         self.groups = {}
         if imc:
@@ -646,6 +826,84 @@ def grid_sensitivity():
                     raise DesignError("frame %s of %s has no %s pair that is sensitive to the cell index of unwrapped coordinates" % (L, sysname, name))
                 res[(sysname, L, name)] = lost
     return res
+
+
+SHAPE_CHECKED = {}
+
+
+def shape_check(sysname):
+    """self-check of one system of the grid-SHAPE family, from the generated .gro text (memoised; DesignError otherwise):
+    * the search grid (floor(height/cut-off), at least 1, per axis) of AA, AB, BB and the wide three-body AAW has exactly
+      the designed shape in frame A and the designed class per axis ({1,2,3,>=4}) in frame B;
+    * every rdf obeys the rule csg_stat enforces on the first frame, max <= half the shortest box height, in BOTH frames
+      and both modes (max / max_intra);
+    * the in-range non-excluded pairs of EVERY rdf contain: a pair inside one cell; per axis with >= 2 cells a pair in
+      different cells whose minimum image crosses the periodic face (through the wrap) and a pair in different cells
+      that does not (internal boundary); per axis with ONE cell a pair whose minimum image crosses the face;
+    * no A-A pair closer than step/2 (undefined first bin), no minimum image that is nearly ambiguous (matters for angles).
+    returns counters for the evidence"""
+    if sysname in SHAPE_CHECKED:
+        return SHAPE_CHECKED[sysname]
+    kind, shape = SHAPE_FAMILY[sysname]
+    sy = SYSTEMS[sysname]
+    stat = {"same_cell": 0, "cross_cell_through_wrap": 0, "cross_cell_internal": 0, "wrap_of_single_cell_axis": 0}
+    for L in "AB":
+        box, pos = parse_gro(gro_frame(sysname, L), sy)[0]
+        hts = box_heights(box)
+        for name in ("AA", "AB", "BB", "AAW"):
+            d = INTER[name]
+            cut = float(d[7]) if d[0] == "three" else float(d[4]) + float(d[5])
+            N = [max(int(hts[k] / cut), 1) for k in range(3)]
+            if [min(n, 4) for n in N] != list(shape) or (L == "A" and N != list(shape)):
+                raise DesignError("%s frame %s: search grid of %s is %s, designed %s" % (sysname, L, name, N, shape))
+            if d[0] != "rdf":
+                continue
+            if max(float(d[4]), float(d[6])) > 0.5 * min(hts):
+                raise DesignError("%s frame %s: max of %s exceeds half the shortest box height" % (sysname, L, name))
+            mn, mx, st = float(d[3]), float(d[4]), float(d[5])
+            l1, l2 = sy.ntype(d[1]), sy.ntype(d[2])
+            pairs = [(a, b) for a in l1 for b in l1 if a < b] if d[1] == d[2] else [(a, b) for a in l1 for b in l2]
+            same = 0
+            wrap, internal, single = [0, 0, 0], [0, 0, 0], [0, 0, 0]
+            for a, b in pairs:
+                v, n_img, gap = conn_general(pos[a], pos[b], box)
+                r = norm(v)
+                if r < 1.2 and gap < 1e-6:
+                    raise DesignError("%s frame %s: minimum image of pair %d-%d is ambiguous" % (sysname, L, a, b))
+                if name == "AA" and r < 0.5 * st + 1e-6:
+                    raise DesignError("%s frame %s: A-A pair %d-%d closer than step/2" % (sysname, L, a, b))
+                if (min(a, b), max(a, b)) in sy.excl or not (mn - 0.5 * st <= r < mx + 0.5 * st):
+                    continue
+                fa, fb = box_frac(pos[a], box), box_frac(pos[b], box)
+                ca = [int(math.floor(fa[k] * N[k])) % N[k] for k in range(3)]
+                cb = [int(math.floor(fb[k] * N[k])) % N[k] for k in range(3)]
+                # image shift between the two beads folded into the primary cell
+                cross_face = [n_img[k] + int(math.floor(fb[k])) - int(math.floor(fa[k])) != 0 for k in range(3)]
+                if ca == cb:
+                    same += 1
+                for k in range(3):
+                    if N[k] == 1:
+                        single[k] += cross_face[k]
+                    elif ca[k] != cb[k]:
+                        if cross_face[k]:
+                            wrap[k] += 1
+                        else:
+                            internal[k] += 1
+            for k in range(3):
+                ok = (single[k] > 0) if N[k] == 1 else (wrap[k] > 0 and internal[k] > 0)
+                if not ok or not same:
+                    raise DesignError("%s frame %s %s: pair classes missing on axis %s (%d cells): same-cell %d, through wrap %s, internal %s, "
+                                      "wrap of single cell %s" % (sysname, L, name, "xyz"[k], N[k], same, wrap, internal, single))
+            stat["same_cell"] += same
+            stat["cross_cell_through_wrap"] += sum(wrap)
+            stat["cross_cell_internal"] += sum(internal)
+            stat["wrap_of_single_cell_axis"] += sum(single)
+        # ties / three-body neighbours on the cut-off would be DesignErrors of the model: provoke them now
+        for intra in (0, 1):
+            for name in set_order("S9"):
+                values_of(sy, name, (box, pos), intra)
+    SHAPE_CHECKED[sysname] = stat
+    return stat
 
 
 def empty_pattern_check():
@@ -896,7 +1154,28 @@ def evaluate(c, R=None, verbose=False):
         mm2, _, _ = compare_with_model(model, files, processed, bl, cumvol=True)
         if not mm2 and all(volume_dependent(fn) for fn, k, t in mm):
             known_vol = True
-    if known_vol:
+    # triclinic frames: are ALL differences explained by a connection vector that is reduced component by component
+    # (z, then y, then x) instead of the minimum image, for a pair whose minimum-image distance lies inside a histogram
+    # range but beyond half the shortest box vector?  (narrow: such a pair must exist in a processed frame AND the
+    # output must equal the model computed with that connection exactly)
+    known_seq = None
+    if mm and not known_vol and any(len(fbl[L][0]) == 9 for L in processed):
+        reach = max([float(INTER[n][7]) if INTER[n][0] == "three" else model.grids[n][0] + (model.grids[n][2] - 0.5) * model.grids[n][1]
+                     for n in model.order if INTER[n][0] != "bonded"] + [0.0])
+        prs = [(L,) + p for L in sorted(set(processed)) for p in sequential_image_pairs(sy, fbl[L], reach)]
+        if prs:
+            model2 = Model(sysname, sname, intra, imc, fbl, sequential_image=True)
+            mm2, _, _ = compare_with_model(model2, files, processed, bl)
+            if not mm2:
+                known_seq = prs
+    if known_seq:
+        L, a, b, t, q = known_seq[0]
+        fails.append(("triclinic-connection-not-minimum-image",
+                      "triclinic box: frame %s beads %d-%d are %.4f nm apart (minimum image, inside the histogram range) but are "
+                      "binned at %.4f nm, the z,y,x-reduced connection of TriclinicBox::BCShortestConnection; every difference "
+                      "is explained by it: %s" % (L, a + 1, b + 1, t, q, mm[0][2])))
+        model = model2
+    elif known_vol:
         fails.append(("block-avg-vol-not-restarted",
                       "block output uses <V> accumulated over all previous blocks instead of the block's own frames: " + mm[0][2]))
     else:
@@ -953,7 +1232,7 @@ def evaluate(c, R=None, verbose=False):
         # explained by: the worker thread's topology (second ReadTopology of the same xml reader object)
         # carries every <bonded> interaction twice, so the 2nd, 4th, ... frame counts bonded values double?
         dup = False
-        if not sy.mapped and (not mm or known_vol) and any(is_bonded(n) for n in model.order):
+        if not sy.mapped and (not mm or known_vol or known_seq) and any(is_bonded(n) for n in model.order):
             mmd, _, _ = compare_with_model(model, filesn, processed, bl, cumvol=known_vol, dup_odd=True)
             dup = not mmd
         if dup:
@@ -976,6 +1255,18 @@ def evaluate(c, R=None, verbose=False):
                 fails.append(("nbsearch-%s-differs-from-default" % nb, "<nbsearch>%s</nbsearch> output differs from the default (grid) in %s" % (nb, diff)))
             elif R is not None:
                 R.count("nbsearch_%s_identical" % nb)
+    # grid-shape family: <nbsearch>simple</nbsearch> = O(N^3) NBList_3Body for the two three-body interactions (a genuine
+    # grid-vs-simple differential for every grid shape); the rdfs use NBListGrid either way
+    if sysname in SHAPE_FAMILY:
+        rcb, filesb, sob, _ = run_tool(sysname, sname, hist, bl, ff, nf, intra, imc, 1, nb="simple")
+        nruns += 1; nframes += len(processed)
+        if rcb != 0:
+            fails.append(("tool-failed", "nbsearch=simple: exit status %s: %s" % (rcb, sob.strip()[-200:])))
+        elif filesb != files:
+            diff = sorted(fn for fn in set(files) | set(filesb) if files.get(fn) != filesb.get(fn))
+            fails.append(("nbsearch-simple-differs-from-default", "<nbsearch>simple</nbsearch> output differs from the default (grid) in %s" % diff))
+        elif R is not None:
+            R.count("nbsearch_simple_identical")
     # dedupe keys
     out, seen = [], set()
     for k, t in fails:
@@ -1031,6 +1322,20 @@ def enumerate_cases(tier):
             for sname in SETS_OF["T5"]:
                 for bl in ([0, 2] if tier == "quick" else [0, 1, 2, 3]):
                     cases.append(("T5", sname, "".join(h), bl, 0, 0, 0, 1))
+    # grid-SHAPE family: ALL 64 shapes {1,2,3,>=4}^3 of the search grid, orthorhombic (G) and triclinic (H) boxes
+    if tier == "quick":
+        hists6, bls6 = ["AB"], [0]
+    else:
+        hists6, bls6 = ["".join(h) for n in (1, 2) for h in itertools.product("AB", repeat=n)], [0, 1]
+    for kind in "GH":
+        for shape in sorted(s for k, s in SHAPE_FAMILY.values() if k == kind):
+            sysname = "%s%d%d%d" % ((kind,) + shape)
+            for hist in hists6:
+                for bl in bls6:
+                    for intra, imc in modes:
+                        if tier == "quick" and kind == "H" and intra:
+                            continue
+                        cases.append((sysname, "S9", hist, bl, 0, 0, intra, imc))
     return cases
 
 
@@ -1045,6 +1350,15 @@ RULE = ("alphabet: frames {A,B,C} (boxes 8.0/11.0/10.08 nm^3, one pair exactly o
         "group with a completely EMPTY per-frame histogram (asserted at start-up), groups {same-type rdf BB + bond} and "
         "{cross-type rdf AB + three-body AAA}: ALL sequences of length <= 3 (quick) / <= 4 (thorough) = all 0/1 emptiness "
         "patterns, block lengths {0,2} / {0,1,2,3}; gmc/idx (and dS except for three-body members) vs the recomputation + block oracle; "
+        "+ grid-SHAPE family G/H (16 beads, unwrapped coordinates): ALL 64 shapes {1,2,3,>=4}^3 of the neighbour-search grid (cells per "
+        "axis = floor(box height/(max+step)); box heights 1.65/2.3/3.2/4.1 nm in frame A, 1.68/2.4/3.1/5.05 (1/2/3/5 cells) in frame B, "
+        "max = 0.8 <= half the shortest height as csg_stat demands) in orthorhombic (G) and triclinic (H, tilted b and c, heights as "
+        "designed) boxes: a cluster straddling the three faces through the origin + beads straddling the internal cell boundaries; "
+        "asserted at start-up per system and per rdf: in-range pairs inside one cell, in different cells through the periodic wrap "
+        "and across an internal boundary on every axis with >= 2 cells, across the wrap of every single-cell axis; set S9 = AA, AB, BB, "
+        "three-body AAA (cut 0.6) and AAW (cut 0.85, same grid shape), bond; quick: history AB x {plain, --include-intra (G only), "
+        "--do-imc}; thorough: all histories over {A,B} of length <= 2 x block length {0,1} x 3 modes; nt 1/2, nbsearch simple identical; "
+        "reference distance in triclinic boxes = brute-force minimum over all lattice images |n| <= 2; "
         "bound: ALL frame sequences of length 1..3 (39) x block lengths x first-frame/nframes selections x interaction sets "
         "(same-type rdf from 0, cross-type rdf from min>0, rdf whose first bin starts at r=0, bond, angle, dihedral, two three-body "
         "angular) x {plain, --include-intra, --do-imc}; every case additionally run with --nt 2 (byte identical) and, per block, "
@@ -1088,6 +1402,11 @@ def main():
         R.sample("empty-histogram family T5 per-frame histograms: " + "; ".join(
             "%s/%s=%s" % (L, n, "empty" if not any(c) else list(c)) for (L, n), c in sorted(pat.items())))
     if a.shard == 0:
+        for n6 in ("G123", "H141"):
+            b6, p6 = parse_gro(gro_frame(n6, "A"), SYSTEMS[n6])[0]
+            R.sample("shape family %s frame A: box line %s, heights %s, in-range rdf pair classes (both frames) %s" % (
+                n6, list(b6), [round(h, 4) for h in box_heights(b6)], shape_check(n6)))
+    if a.shard == 0:
         R.count("grid_family_pairs_sensitive_to_cell_index_of_unwrapped_coordinates", sum(len(v) for v in sens.values()))
         R.sample("grid family: pairs a truncating cell index would lose (bead a, bead b, axis, cells on that axis): " +
                  "; ".join("%s/%s/%s %s" % (k[0], k[1], k[2], v) for k, v in sorted(sens.items())))
@@ -1098,6 +1417,12 @@ def main():
     for i, c in enumerate(cases):
         if not a.mine(units[unit_of(c)]):
             continue
+        if c[0] in SHAPE_FAMILY:
+            st = shape_check(c[0])
+            if c[2:] == ("AB", 0, 0, 0, 0, 0):        # once per system
+                R.count("shape_family_systems")
+                for k, v in sorted(st.items()):
+                    R.count("shape_family_in_range_rdf_pairs_" + k, v)
         fails, nruns, nframes, info = evaluate(c, R)
         R.eval(nruns)
         traces += nruns
